@@ -514,16 +514,23 @@ func c18Run(c *C) {
 			c.Fail("setup", D{"error": err.Error()})
 			return
 		}
-		for a := 0; a <= 20; a++ {
+		for a := -20; a <= 20; a++ {
 			for b := 1; b <= 20; b++ {
-				for _, w := range []int{1, 10, 100} {
-					twice := 2 * a * w
+				for _, w := range []int{1, 3, 10, 100} {
+					abs := a
+					if abs < 0 {
+						abs = -abs
+					}
+					twice := 2 * abs * w
 					tie := twice%b == 0 && (twice/b)%2 == 1
 					if tie && b&(b-1) != 0 {
 						c.Unjudged() // a tie whose ratio is not exact in binary
 						continue
 					}
-					want := (twice + b) / (2 * b)
+					want := (twice + b) / (2 * b) // round half away from zero
+					if a < 0 {
+						want = -want
+					}
 					out, xerr := tpl.Execute(pongo2.Context{"a": a, "b": b, "c": w})
 					c.Eval(1)
 					exp := fmt.Sprintf("%d|%d", want, want)
@@ -638,7 +645,7 @@ func init() {
 		},
 		Run: c18Run,
 		Rule: "exhaustive integer windows (slice bounds -8..8 and omitted, squared, over strings incl. multi-byte, []int, [N]int array values and []string of length 0..6; widths 0..20 over 23 strings for truncatechars/truncatewords/ljust/rjust/center/wordwrap; get_digit 0..12; " +
-			"add/divisibleby/pluralize/integer/float/stringformat over 15 integers squared; floatformat for n/16, n in -80..80, with arguments none,0..5,-1..-4, ties skipped; yesno/default/default_if_none over 13 truthiness cases; date/time layouts; documented error cases; widthratio a 0..20, b 1..20, c in {1,10,100}) " +
+			"add/divisibleby/pluralize/integer/float/stringformat over 15 integers squared; floatformat for n/16, n in -80..80, with arguments none,0..5,-1..-4, ties skipped; yesno/default/default_if_none over 13 truthiness cases; date/time layouts; documented error cases; widthratio a -20..20, b 1..20, c in {1,3,10,100}) " +
 			"plus random texts/numbers/sequences; each application is compared with an independent reference function, a sample also through {{ v|f:p }}. distinct_nontrivial = distinct (filter, input, parameter) triples judged.",
 		MinNontriv:  5000,
 		Assumptions: []string{"reference definitions and judged domains: DESIGN.md appendix A", "widthratio ties whose ratio is not exactly representable in binary are unjudged"},
